@@ -3,7 +3,7 @@
 from ..campaign import Result
 from .. import strategies as S
 from ..trace import NORMAL
-from ._rt import run_case, shape_labels, RT_ASSUMPTIONS, context, S_iter
+from ._rt import library_job_anomalies, run_case, shape_labels, RT_ASSUMPTIONS, context, S_iter
 
 ID = 'C14'
 LEVEL = 'exploration'
@@ -137,6 +137,7 @@ def evaluate_one(case):
     small = sum(1 for _ in S_iter(case)) <= 40
     trace, ix = run_case(case, sampling='every-iteration' if small else True, run_on=False)
     shape_labels(case, trace, res)
+    library_job_anomalies(trace, res, 'C14')
     res.nontrivial = oracle(case, trace, ix, res)
     res.sample = dict(outcome=trace.outcome, samples=len(trace.samples))
     return res
